@@ -43,8 +43,12 @@ if PYMC_GT_516:
             return 0.5 * (a + b)
 
         def logp(value, a, b):
+            value = pt.as_tensor_variable(value)
             _fac = pt.log(b) - pt.log(a)
-            res = -pt.as_tensor_variable(value) - pt.log(_fac)
+            # p(x) = 1 / (x ln(b/a)) on [a, b], zero outside
+            res = pt.switch(
+                (value >= a) & (value <= b), -pt.log(value) - pt.log(_fac), -np.inf
+            )
             return check_parameters(
                 res,
                 (a > 0) & (a < b),
@@ -84,8 +88,12 @@ else:  # old behavior
         moment = support_point
 
         def logp(value, a, b):
+            value = pt.as_tensor_variable(value)
             _fac = pt.log(b) - pt.log(a)
-            res = -pt.as_tensor_variable(value) - pt.log(_fac)
+            # p(x) = 1 / (x ln(b/a)) on [a, b], zero outside
+            res = pt.switch(
+                (value >= a) & (value <= b), -pt.log(value) - pt.log(_fac), -np.inf
+            )
             return check_parameters(
                 res,
                 (a > 0) & (a < b),
